@@ -24,7 +24,7 @@ def run(tier):
         runs = list(ex.map(lambda t: tlc.run(t[0], t[1], workers=4, timeout=1800, heap="8g"), specs))
     for (mod, cfg, pick), rr in zip(specs, runs):
         c.add_tlc(rr, "borrowed worlds of " + mod)
-        borrowed += list(dict.fromkeys(rr.behaviours))[c.seed % pick::pick]
+        borrowed += [b for b in dict.fromkeys(rr.behaviours) if replay.pick(b, pick, c.seed)]
     from lib import gen
     gb = gen.behaviours(c, tier, "finite")
     borrowed += gb
